@@ -5,6 +5,11 @@
 (* specification predicts.                                                                          *)
 EXTENDS Lifecycle, IOUtils
 Neg1 == -1
+\* components of the per-input pipeline the driver's configuration enables (sorted), C16
+PipeNone == <<>>
+PipeHook == <<"hook">>
+PipeAll == <<"hls", "hook", "recflv", "rects", "ts">>
+CONSTANT PipeComps
 
 Trace == ndJsonDeserialize(IOEnv.TRACE)
 VARIABLES l, failed
@@ -17,7 +22,7 @@ TraceReset ==
   /\ grp' = FALSE /\ inp' = "" /\ owner' = ""
   /\ ss' = [x \in Sessions |-> "idle"] /\ closed' = [x \in Sessions |-> FALSE]
   /\ nh' = [x \in Sessions |-> "none"]
-  /\ pull' = PullInit /\ clock' = 0 /\ nticks' = 0 /\ act' = [name |-> "init"]
+  /\ pull' = PullInit /\ clock' = 0 /\ nticks' = 0 /\ down' = FALSE /\ act' = [name |-> "init"]
   /\ failed' = FALSE
 
 Do(name, e) ==
@@ -38,25 +43,38 @@ Do(name, e) ==
     [] name = "PullFail"  -> PullFail
     [] name = "PullEnd"   -> PullEnd
     [] name = "Advance"   -> Advance
+    [] name = "Shutdown"  -> Shutdown
 
 \* C03 StatOnlyAttached: the stat API lists exactly the attached network / GB28181 input and the attached subscribers
 Listed(i, s) == (IF i \in NetPubs \cup PsPubs THEN {i} ELSE {}) \cup {x \in Subs : s[x] = "in"}
 SeqSet(q) == {q[k] : k \in 1..Len(q)}
 
 TraceStep ==
-  /\ l <= Len(Trace) /\ Trace[l].ev # "reset" /\ l' = l + 1
+  /\ l <= Len(Trace) /\ Trace[l].ev \notin {"reset", "Leak"} /\ l' = l + 1
   /\ LET e == Trace[l] IN
      IF failed THEN UNCHANGED vars /\ failed' = failed
      ELSE /\ Do(e.ev, e)
+          /\ (e.ev # "Shutdown" => down' = down)
           /\ LET good == /\ act'.obs = e.obs
-                         /\ ("stat" \in DOMAIN e =>
+                         /\ ("pipe" \in DOMAIN e => e.pipe = (IF owner' = "" THEN <<>> ELSE PipeComps))
+                         /\ ("filesOk" \in DOMAIN e => e.filesOk)
+                         /\ (("stat" \in DOMAIN e /\ ~down') =>     \* (after a shutdown the listing is moot)
                                /\ e.stat.exists = grp'
                                /\ (grp' => SeqSet(e.stat.listed) = Listed(inp', ss'))
                                /\ Len(e.stat.listed) = Cardinality(SeqSet(e.stat.listed)))
              IN /\ failed' = ~good
                 /\ IF good THEN TRUE ELSE PrintT("@REJ@" \o ToString(l))
 
-TraceNext == TraceReset \/ TraceStep
+\* C16 ResourcesReturn: goroutines and descriptors measured after n1 and after n2 > n1 publish/unpublish
+\* cycles with every output enabled and all sessions gone: no growth (small slack for the runtime)
+TraceLeak ==
+  /\ l <= Len(Trace) /\ Trace[l].ev = "Leak" /\ l' = l + 1
+  /\ LET e == Trace[l]
+         good == e.g2 - e.g1 <= 2 /\ e.fd2 - e.fd1 <= 2 /\ e.n2 > e.n1
+     IN /\ failed' = failed /\ UNCHANGED vars
+        /\ IF good THEN TRUE ELSE PrintT("@REJ@" \o ToString(l))
+
+TraceNext == TraceReset \/ TraceStep \/ TraceLeak
 TraceSpec == TraceInit /\ [][TraceNext]_tvars
 HighWater == TLCSet(1, IF l > TLCGet(1) THEN l ELSE TLCGet(1))
 Accept == PrintT("@HW@" \o ToString(TLCGet(1)))
